@@ -75,3 +75,12 @@ Definition rz_parent : spec := Spec 1 [ASpawn rz_child; ATell (XChild 1) 5 [APan
 Definition rz_scripts : list (list action) := [[ASpawn rz_parent]].
 Definition rz_events : list event := EvStart 0 :: sched 400 (step (init_with rz_scripts) (EvStart 0)).
 Definition rz_final : state := run_events rz_events (init_with rz_scripts).
+
+Lemma first_is_launch_refuted :
+  exists scs evs a m rest,
+    let s := run_events evs (init_with scs) in
+    err s = false /\ seen_of a (olog s) = m :: rest /\ m <> MLaunch.
+Proof.
+  exists race_scripts, race_events, 1%nat, (MUser 7 []), []. cbv zeta.
+  split; [vm_compute; reflexivity|]. split; [vm_compute; reflexivity|discriminate].
+Qed.
